@@ -90,6 +90,7 @@ REQUIRED_THEOREMS = ["ccm_roundtrip", "tamper_detected_iff_tag_mismatch", "optio
                      "interleaved_contexts_roundtrip", "response_ctx_is_request_ctx_impl",
                      "unprotect_protect_response_for", "observe_request_response_own_piv", "plain_response_request_nonce",
                      "rejected_request_keeps_bindings", "request_nonce_at_most_once", "sequence_roundtrip_server",
+                     "response_never_under_own_request_nonce",
                      "observe_request_own_piv_impl"]
 RULE = ("exchanges (one request and 0-3 responses/notifications per line) between a client and a server OSCORE context set up "
         "from master secret / salt / ID context / ids 0..7 bytes: all request methods and response codes, inner/outer option "
@@ -586,6 +587,84 @@ def gen_oseq_line(rng, wrong=None, weird=False, scenario=None):
     return "oseq %s %s %d %d %d %s" % (fmt_params(*cl), fmt_params(*sv), cseq, gen_piv(rng), newmid, " ".join(steps))
 
 
+# ---- both directions on one session: each endpoint client AND server (op `oend`, fix 48ee5dc `is_client`) ------------
+def gen_oend_line(rng, scenario=None):
+    while True:
+        secret, salt, idctx, cid, sid = gen_params(rng)
+        if (idctx is None or len(idctx) <= 34) and cid != sid:
+            break
+    e0 = (secret, salt, idctx, cid, sid)
+    e1 = (secret, salt, idctx, sid, cid)
+    gen_token = lambda r: G.rbytes(r, r.choice([0, 1, 2, 4, 8]))
+    pool = [gen_token(rng) for _ in range(2)]
+    if pool[0] == pool[1]:
+        pool[1] = pool[0] + b"\x01" if len(pool[0]) < 8 else pool[0][:-1]
+    steps = []
+    pending = {0: [], 1: []}          # tokens of requests endpoint e has RECEIVED and not answered
+
+    def q(e, t, how="d", kind="plain"):
+        steps.append("q %d %s %s" % (e, gen_seq_request(rng, t, kind).hex(), how))
+        if how == "d" and t not in pending[1 - e]:
+            pending[1 - e].append(t)
+
+    def r(e, t, piv=0, how="d"):
+        steps.append("r %d %s %d %s" % (e, gen_seq_response(rng, t, False).hex(), piv, how))
+        if t in pending[e]:
+            pending[e].remove(t)
+    t = pool[0]
+    sc = scenario if scenario is not None else rng.randint(0, 9)
+    a = rng.randint(0, 1)
+    b = 1 - a
+    if sc == 0:      # (a) received, not yet answered; own request re-uses the token; then the response
+        q(a, t); q(b, t); r(b, t)
+    elif sc == 1:    # the other order: own request first, then a received request takes the token over
+        q(b, t, rng.choice("dl")); q(a, t); r(b, t)
+    elif sc == 2:    # (a), and the peer answers the own request first
+        q(a, t); q(b, t); r(a, t); r(b, t)
+    elif sc == 3:    # (a) with an explicit Partial IV asked for
+        q(a, t); q(b, t); r(b, t, 1)
+    elif sc == 4:    # (a), own request lost
+        q(a, t); q(b, t, "l"); r(b, t); q(a, t); r(b, t)
+    elif sc == 5:    # both ends collide
+        q(a, t); q(b, t); r(a, t); r(b, t); q(b, t); q(a, t); r(a, t); r(b, t)
+    elif sc == 6:    # Observe registration received, own plain request with its token, notification
+        q(a, t, "d", "reg"); q(b, t); r(b, t); r(b, t)
+    else:            # random walk over two tokens, both directions
+        for _ in range(rng.randint(3, 8)):
+            e = rng.randint(0, 1)
+            if pending[e] and rng.random() < 0.45:
+                r(e, rng.choice(pending[e]), 1 if rng.random() < 0.2 else 0, "d" if rng.random() < 0.85 else "l")
+            elif rng.random() < 0.08:
+                r(e, rng.choice(pool), 0, "d")
+            else:
+                # (a registration never shares its token with the other direction here: libcoap's sticky is_observe of the ONE
+                # table then gives the other direction's plain response a Partial IV - allowed, but not D14.5's form)
+                tq = rng.choice(pool) if rng.random() < 0.8 else gen_token(rng)
+                q(e, tq, "d" if rng.random() < 0.85 else "l", "plain" if tq in pool or rng.random() < 0.5 else "reg")
+    seq0, seq1 = min(gen_piv(rng), MAXSEQ - 16), min(gen_piv(rng), MAXSEQ - 16)
+    newmid = -1 if rng.random() < 0.3 else rng.randint(0, 0xFFFF)
+    return "oend %s %s %d %d %d %s" % (fmt_params(*e0), fmt_params(*e1), seq0, seq1, newmid, " ".join(steps))
+
+
+def oend_collision(w):
+    """does the oend line (words) use one token in BOTH directions? (requests by endpoint 0 and by endpoint 1)"""
+    toks = {0: set(), 1: set()}
+    k = 14
+    while k < len(w):
+        if w[k] == "q" and k + 3 < len(w):
+            try:
+                raw = bytes.fromhex(w[k + 2])
+                toks[int(w[k + 1]) & 1].add(raw[4:4 + (raw[0] & 15)])
+            except ValueError:
+                pass
+            k += 4
+        elif w[k] == "r":
+            k += 5
+        else:
+            break
+    return bool(toks[0] & toks[1])
+
+
 # ---- several security contexts at the server (ops `oscm`, `findctx`; D14.18) ---------------------------
 def gen_ctx_pools(rng):
     """small pools of Recipient IDs and ID Contexts, so that stores routinely hold the same Recipient ID (also the empty one)
@@ -942,6 +1021,8 @@ def generate(ctx, escalate=False):
         out.append(gen_oinj_line(rng))
     for i in range(500 * k):
         out.append(gen_oscx_line(rng, scenario=i if i < 32 else None))
+    for i in range(400 * k):
+        out.append(gen_oend_line(rng, scenario=i % 7 if i < 70 else None))
     return out
 
 
@@ -1045,6 +1126,32 @@ def judge(ctx, c):
                         return ("spec", "RFC 8613 Appendix C vector not reproduced at a server with several contexts: expected %s in %s" % (e.strip(), short(it)))
         if isel.strip() != (m or "").strip():
             return ("tie", "context selected: implementation %s but model M (oscore_find_context) says %s" % (isel.strip(), (m or "").strip()))
+        return None
+    if op == "oend":
+        # impl: `end <transcript> | <associations of both sessions>`; driver: S = the transcript with token spaces per direction
+        # (D14.20), M = `<transcript libcoap's ONE table gives> ; <trace>` (Model/OscoreSrv.lean with is_client)
+        it, _, itr = (i or "").partition(" |")
+        ml, _, mtr = (m or "").partition(" ;")
+        ml = ("end " + ml.strip()).strip()
+        fi, fs = it.split(" "), (s or "").split(" ")
+        for k in range(max(len(fi), len(fs))):
+            a = fi[k] if k < len(fi) else None
+            b = fs[k] if k < len(fs) else None
+            if a == b:
+                continue
+            if a in ("resp=fail", "uresp=rej") and oend_collision(c["input"].split()) and ml == it and itr.strip() == mtr.strip():
+                break     # open finding c14-token-shared-across-directions (known()): libcoap does LESS than the reference
+            return ("spec", "client and server on one session, step %s: implementation %s but the RFC 8613 reference (a response is "
+                            "protected with the nonce of the RECEIVED request it answers or its own Partial IV) gives %s" % (
+                                diff_step(it, s), short(a), short(b)))
+        if ml != it:
+            return ("tie", "one association table for both directions: implementation %s but model M (is_client) gives %s" % (
+                field_diff(it, ml), field_diff(ml, it)))
+        if itr.strip() != mtr.strip():
+            return ("tie", "session->associations (is_client): implementation %s but model M says %s" % (
+                first_diff(itr.strip(), mtr.strip()), first_diff(mtr.strip(), itr.strip())))
+        if it != s:
+            return ("spec", "KNOWN c14-token-shared-across-directions: %s where the reference gives %s" % (field_diff(it, s), field_diff(s, it)))
         return None
     if op == "oscx":
         # impl: `seq <transcript> | <trace of the server session>`; driver: S = the transcript (every response protected with the
@@ -1377,4 +1484,12 @@ def shrink(ctx, case):
 
 
 def known(ctx, c):
+    """open finding c14-token-shared-across-directions: an `oend` line on which one token is used in both directions, libcoap
+    (as model M with its ONE table predicts, transcript and associations) refuses to protect a response / rejects a genuine
+    response where the reference with token spaces per direction produces / accepts one — and nothing else differs"""
+    if c["input"].split()[0] != "oend":
+        return None
+    v = judge(ctx, c)
+    if v and v[0] == "spec" and v[1].startswith("KNOWN c14-token-shared-across-directions"):
+        return "c14-token-shared-across-directions"
     return None
